@@ -90,9 +90,12 @@ CLAIMED.update({
                "case-variant records; racing writes; cancelled contexts) is checked against it, including the fail-safe and demotion clauses.", "5.4 and 11", TECH,
                extra="The verdict model is hand-written (not regenerated); the theorem is about that model."),
     "C05": sim("Theorems: every acquisition by Create publishes a readable payload naming its issuer with a non-empty token, and every successful refresh republishes "
-               "exactly the token and identity of the version it replaces (same theorem as C01's refresh clause). Freshness of tokens across terms and the "
-               "callback/Token()/Status() clauses are decided by the monitor on every trace (rule 2003 states freshness locally; uuid uniqueness is trusted).",
-               "5.5 and 11", TECH),
+               "exactly the token and identity of the version it replaces (same theorem as C01's refresh clause); and (Proofs/SimFresh.v) every successful acquisition "
+               "publishes a token that no version of the history carries, for every admitted trace in which nobody else writes the bucket and no takeover is configured "
+               "(tokens in the history are tokens of applied Creates; pending Creates carry pairwise different tokens: rule 2003 states freshness locally, uuid uniqueness "
+               "is trusted). PARTIAL: with an outside writer or the takeover path the freshness clause is decided by the monitor only; so are the "
+               "callback/Token()/Status() clauses.",
+               "5.5, 11 and 12", TECH),
     "C06": sim("Theorem: for every schedule in which the periodic check fires within the regenerated interval, the acquisition round waits at most the regenerated "
                "maximum jitter and each store call takes at most L, a vacancy is filled within 500 ms + 100 ms + 4L. The monitor measures the bound on every "
                "vacancy of every simulated trace (deletion, expiry after crash/partition, removal; lost/closed/failed watches; transient failures).", "5.6 and 11", TECH),
